@@ -6,6 +6,14 @@ props = [json.loads(l) for l in open(os.path.join(ROOT, "properties.jsonl"))]
 
 # id -> (technique, level text, level note, design ref)
 CHECKS = {
+ "C18": ("fault-injection style property test: a garbage-collecting model sink collects untraced, disconnected nodes at every suspension point of generated parses (one character per chunk)",
+         "After every feed() return trace_handles is called, everything not connected to a traced handle or the document is marked collected; any later sink call on a collected handle is a violation and the final tree must equal a GC-free run. HTML documents, fragments (incl. a caller-supplied form pointer) and XML.",
+         "Without scripts most traced groups (open elements, head pointer, active formatting) are always connected to the document, so only the context element and a caller-supplied form pointer are observable; stated in DESIGN.md.",
+         "DESIGN.md 4 C18"),
+ "C20": ("differential model-based test: tee sink applying every TreeSink call to RcDom and to an abstract DOM model, driven by generated parses and by direct random valid operation sequences",
+         "RcDom tree, parent links and serializer visit order are compared with the model after parses of generated HTML/XML and during/after direct sequences of contract-valid sink calls (incl. selectedcontent mirroring).",
+         "Trusted: ModelDom semantics of the TreeSink operations; reparent_children generated only where it cannot create adjacent text nodes.",
+         "DESIGN.md 4 C20"),
  "C08": ("metamorphic testing: same input and schedule under every combination of diagnostic/housekeeping options",
          "HTML tokens and trees under exact_errors x profile, XML tokens and trees under exact_errors x profile, discard_bom and drop_doctype relations, over grammar-generated inputs with text runs placed for the SIMD path. Exploration.",
          "profile=true output redirected away from stdout during the run.",
